@@ -270,7 +270,7 @@ var c11Embeddings = []c11Embedding{
 func TestVerifC11(t *testing.T) {
 	r := vNewReport("C11")
 	defer r.Write(t)
-	r.Extra["rule"] = "20 documented untrusted paths: full spelling product of every segment in the bare embedding; proper prefixes, trusted siblings per segment, one-segment extensions, object filter in place of each named segment; array filter followed by an index at every later place of the chain; every path continued on the result of a parenthesised || / && (4 templates x every split point); canonical + adversarial spelling (thorough: every spelling) of every path in 23 embeddings (operators, parentheses, call arguments, index positions, 2 and 3 chains, sanitising calls nested both ways), pairs of different paths in the multi-chain embeddings; every path (3 spellings) next to 10 partner chains that leave the matcher in different states, both orders, 3 templates; script positions (run:, github-script script:; also scripts whose own text holds {{ }} before the placeholder) and non-script positions (env:, other with: input, if:, name:; 14 positions that hold exactly one expression - booleans, numbers, whole sections, runner labels - in plain, single- and double-quoted style) through Linter.Lint. oracle = stateless reference matcher on segment lists. class = (family, number of reports expected); non-trivial = something must be reported"
+	r.Extra["rule"] = "20 documented untrusted paths: full spelling product of every segment in the bare embedding; proper prefixes, trusted siblings per segment, one-segment extensions, object filter in place of each named segment; array filter followed by an index at every later place of the chain; object filter followed by an element-picking index and a second index for the array segment; every path continued on the result of a parenthesised || / && (4 templates x every split point); the tail of every path written on the result of a sanitising call next to its head (4 templates x every split point); canonical + adversarial spelling (thorough: every spelling) of every path in 23 embeddings (operators, parentheses, call arguments, index positions, 2 and 3 chains, sanitising calls nested both ways), pairs of different paths in the multi-chain embeddings; every path (3 spellings) next to 10 partner chains that leave the matcher in different states, both orders, 3 templates; script positions (run:, github-script script:; also scripts whose own text holds {{ }} before the placeholder) and non-script positions (env:, other with: input, if:, name:; 14 positions that hold exactly one expression - booleans, numbers, whole sections, runner labels - in plain, single- and double-quoted style) through Linter.Lint. oracle = stateless reference matcher on segment lists. class = (family, number of reports expected); non-trivial = something must be reported"
 	r.Extra["assumptions"] = []string{"a chain is a variable followed by accessors; chains interrupted by operators are not claimed (DESIGN section 7)", "a non-string index anywhere after an object filter (it selects an element of the filtered array) is not generated"}
 	if raw := vReplayInput(); raw != nil {
 		var rp struct {
@@ -436,6 +436,36 @@ func TestVerifC11(t *testing.T) {
 			}
 		}
 	}
+	// (2d) object filter in place of a named segment before an array segment, an index that picks one
+	// element of the filtered array at any place up to the array, and the array segment itself read
+	// through a second index: github.*.commits[0][0].message reads the same paths as
+	// github.*.commits.*.message
+	for _, leaf := range c11Leaves {
+		star := -1
+		for i, sgm := range leaf {
+			if sgm == "*" {
+				star = i
+			}
+		}
+		for k := 0; k < star; k++ {
+			for at := k + 1; at <= star; at++ {
+				for _, ix := range [][2]string{{"0", "0"}, {"matrix.i", "1"}, {"0", "github.run_id"}} {
+					if !mine() {
+						continue
+					}
+					base := c11Canonical(leaf, false)
+					base.accs[k] = c11Acc{'s', ""}
+					base.accs[star] = c11Acc{'n', ix[1]}
+					want := c11Match(base)
+					c := &c11Chain{root: base.root}
+					c.accs = append(c.accs, base.accs[:at]...)
+					c.accs = append(c.accs, c11Acc{'n', ix[0]})
+					c.accs = append(c.accs, base.accs[at:]...)
+					c11CheckExpr(r, c.text(), [][]string{want}, "object-filter-then-two-indices")
+				}
+			}
+		}
+	}
 	// (2c) a chain continued on the result of a parenthesised logical operator: the value read is
 	// still the documented path ((github.event.issue || x).title reads github.event.issue.title)
 	for _, leaf := range c11Leaves {
@@ -449,6 +479,26 @@ func TestVerifC11(t *testing.T) {
 			want := [][]string{c11Match(full)}
 			for _, tmpl := range []string{"(%s || fromJSON(env.X))%s", "(fromJSON(env.X) || %s)%s", "(true && %s)%s", "(%s || github.event.sender)%s"} {
 				c11CheckExpr(r, fmt.Sprintf(tmpl, head.text(), rest), want, "postfix-on-logical-result")
+			}
+		}
+	}
+	// (2e) the tail of a path written on the result of a sanitising call, the head of the path being
+	// a sibling operand: github.event == contains('a', 'b').issue.title reads no documented path
+	// (the whole path as the sibling operand is read, of course)
+	for _, leaf := range c11Leaves {
+		full := c11Canonical(leaf, false)
+		for k := 0; k <= len(leaf); k++ {
+			if !mine() {
+				continue
+			}
+			head := &c11Chain{root: full.root, accs: full.accs[:k]}
+			rest := strings.TrimPrefix(full.text(), head.text())
+			var want [][]string
+			if k == len(leaf) {
+				want = [][]string{c11Match(full)}
+			}
+			for _, tmpl := range []string{"%s == contains('a', 'b')%s", "%s && startsWith('a', github.event.sender.login)%s", "format('{0}{1}', %s, endsWith(github.head_ref, 'b')%s)", "%s || contains(contains('a', 'b'), 'c')%s"} {
+				c11CheckExpr(r, fmt.Sprintf(tmpl, head.text(), rest), want, "tail-on-sanitising-call-result")
 			}
 		}
 	}
